@@ -77,7 +77,7 @@ func VH_C20_ThreadedNewsWrite_sym() {
 }
 
 func c20Account(login string) hotline.Account {
-	return hotline.Account{Login: login, Name: "n", Password: "H:"}
+	return hotline.Account{Login: login, Name: "n", Password: "H:zz"}
 }
 
 // Account edit without rename.
